@@ -114,10 +114,16 @@ func cmdFn(args []string) int {
 			fmt.Println("UNSUPPORTED", key, u)
 		}
 		maxFailures = 1 << 30 // debugging command: decide every obligation
-		dischargeAll(tx.obls, dir, *timeout, 5)
+		var open []*Obligation
+		for _, o := range tx.obls {
+			if o.Status == "" {
+				open = append(open, o)
+			}
+		}
+		dischargeAll(open, dir, *timeout, 5)
 		for _, o := range tx.obls {
 			fmt.Printf("%-10s %-8s %6.2fs %s\n", o.Status, o.Solver, o.TimeS, o.Name)
-			if o.Status == "failed" || o.Status == "unknown" || o.Status == "error" || o.Status == "vacuous" {
+			if o.Status == "failed" || o.Status == "unknown" || o.Status == "error" || o.Status == "vacuous" || o.Status == "failed-structural" {
 				rc = 1
 				fmt.Println("    goal:", o.Src)
 				if o.Status == "failed" {
